@@ -100,7 +100,10 @@ impl AttrStore {
         // so it is as good as written on several lines already.
         if node.kind() == SyntaxKind::CodeBlock
             && node.children().any(|child| {
-                child.kind() == SyntaxKind::Code
+                matches!(
+                    child.kind(),
+                    SyntaxKind::LineComment | SyntaxKind::BlockComment
+                ) || child.kind() == SyntaxKind::Code
                     && child.children().filter(|it| it.is::<Expr>()).count() > 1
             })
         {
